@@ -215,6 +215,266 @@ def run_wrapper_exception_probe():
     return bad
 
 
+# ----------------------------------------------------------------------------- C03 / C04: replayed messages are the messages that were executed
+def replayed_group_probe():
+    """a grouped set / trigger / kickoff / complete after a checkpoint, then wait(group), then a pause and resume before the
+    next checkpoint: the REPLAYED message still belongs to its group, so the replayed wait(group) really waits for the status
+    of the re-issued action (statuses complete 0.05 s after the call, on the engine's loop)"""
+    from bluesky.utils import Msg
+
+    class Slow:
+        parent = None
+
+        def __init__(self, name):
+            self.name = name
+            self.statuses = []
+
+        def _st(self):
+            st = _Status()
+            self.statuses.append(st)
+            _loop().call_later(0.05, st.finish, True)
+            return st
+
+        def set(self, v):
+            return self._st()
+
+        def trigger(self):
+            return self._st()
+
+        def kickoff(self):
+            return self._st()
+
+        def complete(self):
+            return self._st()
+
+        def read(self):
+            return {self.name: {"value": len(self.statuses), "timestamp": 0.0}}
+
+        def describe(self):
+            return {self.name: {"source": "sim", "dtype": "number", "shape": []}}
+
+        def read_configuration(self):
+            return {}
+
+        def describe_configuration(self):
+            return {}
+
+        def describe_collect(self):
+            return {}
+
+        def collect(self):
+            return iter(())
+
+        def stop(self, success=True):
+            pass
+
+    bad = []
+    for cmd in ("set", "trigger", "kickoff", "complete"):
+        dev = Slow("dev")
+        RE, docs = _engine()
+        early = []
+
+        def hook(msg, dev=dev, early=early):
+            if msg.command == "null" and msg.kwargs.get("marker"):
+                if dev.statuses and not dev.statuses[-1].done:
+                    early.append(len(dev.statuses))
+
+        RE.msg_hook = hook
+
+        def plan(cmd=cmd, dev=dev):
+            yield Msg("open_run")
+            if cmd == "complete":
+                yield Msg("kickoff", dev, group="k")
+                yield Msg("wait", None, group="k")
+            yield Msg("checkpoint")
+            args = (1,) if cmd == "set" else ()
+            yield Msg(cmd, dev, *args, group="g")
+            yield Msg("wait", None, group="g")
+            yield Msg("null", marker=True)
+            yield Msg("pause")
+            yield Msg("null")
+            yield Msg("close_run")
+
+        out = _run(RE, plan())
+        rounds = 0
+        while str(RE.state) == "paused" and rounds < 4:
+            rounds += 1
+            out = _run_call_catch(RE.resume)
+        case = {"probe": "replayed-group", "cmd": cmd}
+        n_issued = len(dev.statuses) - (1 if cmd == "complete" else 0)
+        if str(RE.state) != "idle" or n_issued < 2:
+            bad.append(("replayed-group:scenario-did-not-replay", f"{cmd}: state {RE.state!s}, {n_issued} executions, last outcome {out[0]} {out[1]!r}", case))
+        elif early:
+            bad.append((f"replayed-{cmd}-lost-its-group:wait-returned-before-the-status-finished", f"{cmd}(group='g'), wait(group='g'), pause + resume: after the replay the message following wait was processed while the status of execution #{early[0]} of {cmd} was still unfinished", case))
+    return bad
+
+
+# ----------------------------------------------------------------------------- C05 / C03: a pause that a device refuses to replay
+def noreplay_pause_probe():
+    """a Pausable device raises NoReplayAllowed at the first pause (the engine then forgets the cached messages AND commits
+    the numbering: nothing will be re-taken); a second, ordinary pause before the next checkpoint must not roll the counters
+    back behind events that were emitted before the first pause"""
+    from bluesky.utils import Msg, NoReplayAllowed
+
+    class Det:
+        parent = None
+        name = "det"
+
+        def __init__(self):
+            self.n = 0
+            self.pauses = 0
+
+        def read(self):
+            self.n += 1
+            return {"det": {"value": self.n, "timestamp": 0.0}}
+
+        def describe(self):
+            return {"det": {"source": "sim", "dtype": "number", "shape": []}}
+
+        def read_configuration(self):
+            return {}
+
+        def describe_configuration(self):
+            return {}
+
+        def pause(self):
+            self.pauses += 1
+            if self.pauses == 1:
+                raise NoReplayAllowed()
+
+        def resume(self):
+            pass
+
+    bad = []
+    for before in (1, 2):
+        for between in (0, 1):
+            det = Det()
+
+            def point():
+                yield Msg("create", name="primary")
+                yield Msg("read", det)
+                yield Msg("save")
+
+            def plan(before=before, between=between):
+                yield Msg("open_run")
+                yield Msg("checkpoint")
+                for _ in range(before):
+                    yield from point()
+                yield Msg("pause")
+                for _ in range(between):
+                    yield from point()
+                yield Msg("null")
+                yield Msg("pause")
+                yield from point()
+                yield Msg("close_run")
+
+            RE, docs = _engine()
+            out = _run(RE, plan())
+            rounds = 0
+            while str(RE.state) == "paused" and rounds < 6:
+                rounds += 1
+                out = _run_call_catch(RE.resume)
+            evs = [(d["seq_num"], d["data"]["det"]) for n, d in docs if n == "event"]
+            stops = [d for n, d in docs if n == "stop"]
+            case = {"probe": "noreplay-pause", "before": before, "between": between}
+            if str(RE.state) != "idle" or len(stops) != 1:
+                bad.append(("noreplay-pause:call-did-not-finish", f"{case}: state {RE.state!s}, {len(stops)} RunStop, {out[0]} {out[1]!r}", case))
+                continue
+            last = {}
+            for s, v in evs:
+                last[s] = v
+            first_block = [v for s, v in evs][:before]
+            lost = [v for v in first_block if v not in last.values()]
+            if lost:
+                bad.append(("noreplay-pause:seq_num-of-an-event-emitted-before-the-refused-replay-reused", f"{before} event(s) were emitted, the pause was refused replay (NoReplayAllowed), later a second pause + resume: events (seq_num, value) {evs}: the reading(s) {lost} emitted before the first pause lost their seq_num to later events; RunStop.num_events = {stops[0].get('num_events')}", case))
+    return bad
+
+
+# ----------------------------------------------------------------------------- C08 / C10: what one call leaves behind for the next
+def second_call_probe():
+    """a call whose plan used clear_checkpoint (non-resumable from there on) ends; the NEXT call starts resumable again: a
+    pause right after its checkpoint pauses the engine (RunEngineInterrupted, state 'paused', resume works)"""
+    from bluesky.utils import Msg, RunEngineInterrupted
+
+    bad = []
+    for first in ("clear_checkpoint", "clear_checkpoint+checkpoint", "rewindable-false"):
+        RE, docs = _engine()
+
+        def plan1(first=first):
+            yield Msg("open_run")
+            yield Msg("checkpoint")
+            if first.startswith("clear_checkpoint"):
+                yield Msg("clear_checkpoint")
+            else:
+                yield Msg("rewindable", None, False)
+            yield Msg("null")
+            if first.endswith("+checkpoint"):
+                yield Msg("checkpoint")
+            if first == "rewindable-false":
+                yield Msg("rewindable", None, True)
+            yield Msg("close_run")
+
+        def plan2():
+            yield Msg("open_run")
+            yield Msg("checkpoint")
+            yield Msg("null")
+            yield Msg("pause")
+            yield Msg("null")
+            yield Msg("close_run")
+
+        o1 = _run(RE, plan1())
+        o2 = _run(RE, plan2())
+        st = str(RE.state)
+        case = {"probe": "second-call", "first_call": first}
+        if o1[0] != "return":
+            bad.append(("second-call:first-call-failed", f"{first}: {o1[1]!r}", case))
+        if not (o2[0] == "raise" and isinstance(o2[1], RunEngineInterrupted) and st == "paused"):
+            bad.append(("second-call:pause-after-a-checkpoint-did-not-pause", f"first call used {first}; in the second call (open_run, checkpoint, null, pause) the engine ended {o2[0]} {type(o2[1]).__name__ if o2[1] else ''} in state {st!r} instead of paused / RunEngineInterrupted", case))
+            continue
+        o3 = _run_call_catch(RE.resume)
+        if o3[0] != "return" or str(RE.state) != "idle":
+            bad.append(("second-call:resume-failed", f"first call used {first}; resume() of the second call: {o3[0]} {o3[1]!r}, state {RE.state!s}", case))
+    return bad
+
+
+# ----------------------------------------------------------------------------- C10: non-resumable sections under run_wrapper
+def nonresumable_wrapper_probe():
+    """a pause / suspension in a non-resumable section of a plan written with run_wrapper / run_decorator: the engine aborts
+    cleanly -- RunEngineInterrupted, idle, the run closed (by the wrapper's own error handling) exactly once"""
+    from bluesky.preprocessors import run_decorator, run_wrapper
+    from bluesky.utils import Msg, RunEngineInterrupted
+
+    bad = []
+    for form in ("wrapper", "decorator"):
+        for how in ("pause-message", "deferred-at-checkpoint"):
+            def body(how=how):
+                yield Msg("checkpoint")
+                yield Msg("null")
+                yield Msg("clear_checkpoint")
+                yield Msg("null")
+                if how == "pause-message":
+                    yield Msg("pause")
+                else:
+                    yield Msg("pause", None, defer=True)
+                    yield Msg("null")
+                    yield Msg("checkpoint")
+                yield Msg("null")
+
+            plan = run_wrapper(body(), md={}) if form == "wrapper" else run_decorator(md={})(body)()
+            RE, docs = _engine()
+            out = _run(RE, plan)
+            stops = [d for n, d in docs if n == "stop"]
+            case = {"probe": "nonresumable-wrapper", "form": form, "how": how}
+            where = f"run_{form}, {how} after clear_checkpoint"
+            if not (out[0] == "raise" and isinstance(out[1], RunEngineInterrupted)) or str(RE.state) != "idle":
+                bad.append(("nonresumable-wrapper:not-reported-as-interruption", f"{where}: RE(...) ended with {out[0]} {type(out[1]).__name__ if out[1] is not None else ''}: {out[1]}; state {RE.state!s}", case))
+            # the wrapper closes the run itself ('fail': FailedPause is not a RunEngineControlException); what C10 asks for is
+            # that the run IS closed, once
+            if len(stops) != 1:
+                bad.append(("nonresumable-wrapper:run-not-closed-once", f"{where}: RunStop documents {[(d['exit_status'], d.get('reason')) for d in stops]}", case))
+    return bad
+
+
 # ----------------------------------------------------------------------------- C01: external asset documents belong to their run
 def external_assets_probe():
     """a detector that writes external assets (collect_asset_docs) and composes its Resource with a STAND-IN RunStart
@@ -725,6 +985,12 @@ def stale_deferred_pause_probe():
         case = {"probe": "stale-deferred-pause", "how": how}
         if out1[0] != "return" or not pending:
             bad.append(("deferred-request-not-pending-after-plan-without-checkpoint", f"first plan ended with {out1[0]} {type(out1[1]).__name__ if out1[1] else ''}; deferred_pause_requested = {pending}", case))
+        # a request made while the engine is idle is refused (TransitionError) and changes nothing: still pending
+        for defer in (False, True):
+            r = _run_call_catch(lambda d=defer: RE.request_pause(d))
+            if not bool(RE.deferred_pause_requested):
+                bad.append(("pending-deferred-request-wiped-by-a-refused-request", f"plan 1 ended with a deferred pause pending ({how}); RE.request_pause(defer={defer}) on the idle engine ({r[0]} {type(r[1]).__name__ if r[1] else ''}) left deferred_pause_requested = False", case))
+                break
         out2 = _run(RE, plan2())
         st = str(RE.state)
         if out2[0] != "return" or st != "idle":
@@ -741,7 +1007,7 @@ def _run_call(f):
         return f()
 
 
-PROBES = {"external-assets": external_assets_probe, "metadata-store": metadata_store_probe, "dying-subscriber": dying_subscriber_probe, "classic-flyer": classic_flyer_probe, "nonrewindable-region": nonrewindable_region_probe, "relative-moves": relative_moves_probe, "stale-deferred-pause": stale_deferred_pause_probe, "reused-message": reused_message_probe, "locate": locate_probe, "run-wrapper-exception": run_wrapper_exception_probe}
+PROBES = {"replayed-group": replayed_group_probe, "noreplay-pause": noreplay_pause_probe, "second-call": second_call_probe, "nonresumable-wrapper": nonresumable_wrapper_probe, "external-assets": external_assets_probe, "metadata-store": metadata_store_probe, "dying-subscriber": dying_subscriber_probe, "classic-flyer": classic_flyer_probe, "nonrewindable-region": nonrewindable_region_probe, "relative-moves": relative_moves_probe, "stale-deferred-pause": stale_deferred_pause_probe, "reused-message": reused_message_probe, "locate": locate_probe, "run-wrapper-exception": run_wrapper_exception_probe}
 
 
 def add_to(res, names):
